@@ -7,6 +7,7 @@ LEVEL = 'model_checking'
 def prepare():
     import kawin.precipitation  # noqa: F401  (heavy import once, before the workers fork)
     from mc import precip, precip_oracles  # noqa: F401
+    precip.real_thermo('alzr')      # built once in the parent, inherited by the forked workers
 
 
 def run_case(case):
@@ -36,7 +37,7 @@ def run(ctx):
     ctx.rule = ('full Cartesian products of precipitation configurations (system x phases x site x Vm ratio x iterator x temperature '
                 'programme x precipitate diffusion x solve split; shape x PBM grid x adaptivity x preloaded PSD; default step growth), '
                 'each run monitored at every accepted step; non-trivial = run in which precipitates exist on at least one step')
-    ctx.assumptions = ['analytic thermodynamic backends (mc/synth_thermo.py) stand in for pycalphad in the large product',
+    ctx.assumptions = ['analytic thermodynamic backends (mc/synth_thermo.py) stand in for pycalphad in the large products; stage real repeats the oracles on Al-Zr (pycalphad)',
                        'the monitor wraps _calcMassBalance/_appendArrays/_calcNucleationRate on the instance it created']
     main, second, shape, dflt = pp.main_product(ctx.tier), pp.second_product(ctx.tier), pp.shape_product(ctx.tier), pp.default_product(ctx.tier)
     ctx.bounds = {'main': len(main), 'second': len(second), 'shape': len(shape), 'default_dtScale': len(dflt), 'horizon_steps': 8000}
@@ -48,3 +49,6 @@ def run(ctx):
     ctx.product_run('units', 'checks.c01:run_case', units, chunksize=1)
     ctx.product_run('shape', 'checks.c01:run_case', shape, chunksize=1)
     ctx.product_run('default-dtscale', 'checks.c01:run_case', dflt, chunksize=1)
+    real = pp.real_product(ctx.tier)
+    ctx.bounds['real_backend_runs'] = len(real)
+    ctx.product_run('real', 'checks.c01:run_case', real, chunksize=1)
